@@ -466,7 +466,13 @@ def monC05 (h : Hist) : Option String :=
         some s!"exchange {ri.n}: body differs from what the origin sent in exchange {m} ({x.res.body.length} vs {rp.resp.body.length} bytes shown)"
       else if x.res.status ≠ rp.resp.status then some s!"exchange {ri.n}: status {x.res.status}, origin sent {rp.resp.status}"
       else if (match h.frame m k, h.trailers.find? (·.1 = ri.n) with
-          | some (_, sent), some (_, got) => !x.res.bodyErr && ri.method = sGET && Header.canon got ≠ Header.canon sent
+          | some (_, sent), some (_, got) =>
+            -- (served from the store without validation, the trailer fields named by the stored response's qualified
+            --  no-cache are withheld like its header fields: C02)
+            let named := if m = ri.n then [] else (Spec.noCacheFields Spec.rfc rp.resp.header).map canonicalHeaderKey
+            let sent' : Header := sent.filter fun (p : Str × Str) => !named.contains (canonicalHeaderKey p.1)
+            -- (whether they ARE withheld is C02's business; for C05 nothing may be added, altered or otherwise lost)
+            !x.res.bodyErr && ri.method = sGET && Header.canon got ≠ Header.canon sent' && Header.canon got ≠ Header.canon sent
           | _, _ => false) then
         some s!"exchange {ri.n}: trailer fields [{showHdrs ((h.trailers.find? (·.1 = ri.n)).map (·.2) |>.getD [])}] differ from the trailer section the origin sent in exchange {m} [{showHdrs ((h.frame m k).map (·.2) |>.getD [])}]"
       else if m = ri.n then none   -- forwarded on a miss: the body (and status) is what is required
